@@ -8,7 +8,9 @@ FILES = r"^%s/(cds/urcu/.*\.h|src/urcu_(gp|sh)\.cpp)$" % _run.REPO
 NAMES = r"^cds::urcu::"
 TUS = {
     "quick": ["test/unit/list/michael_rcu_gpb.cpp", "test/unit/list/michael_rcu_gpi.cpp", "test/unit/list/michael_rcu_gpt.cpp",
-              "test/unit/list/michael_rcu_shb.cpp"],
+              "test/unit/list/michael_rcu_shb.cpp",
+              # the iterator-range overload of batch_retire is instantiated only by the Ellen tree
+              "test/unit/tree/intrusive_ellenbintree_rcu_gpi.cpp", "test/unit/tree/intrusive_ellenbintree_rcu_gpb.cpp"],
     "thorough": ["test/unit/list/*_rcu_*.cpp", "test/unit/tree/*_rcu_*.cpp", "src/urcu_gp.cpp", "src/urcu_sh.cpp"],
 }
 EXPLANATION = (
